@@ -115,8 +115,8 @@ theorem onFrameEnd_false_closed (s : S) (h : Hdr) (hf : s.cfg.failByDrop = true)
 /-! ### the receive-side frame fields through the begin of a frame -/
 
 theorem dropConnection_recv (s : S) (a : Bool) : (dropConnection s a).ptr = s.ptr ∧ (dropConnection s a).cur = s.cur := by
-  unfold dropConnection
-  split <;> simp [S.emit]
+  unfold dropConnection flushQueue
+  split <;> (try split) <;> simp [S.emit]
 
 theorem failConnection_recv (s : S) (code : Nat) (hf : s.cfg.failByDrop = true) :
     (failConnection s code).ptr = s.ptr ∧ (failConnection s code).cur = s.cur := by
